@@ -192,6 +192,15 @@ var templates = []func(u string) string{
 		return "rec(make([]float32, 1))\nrec(make(float32))\nmake(type uint32, w0)\nrec(make([]uint32, 1))\nfunc() { make(type uint, w0); rec(make([]uint, 1)) }()\nrec(make([]uint, 1))\nrec(make(map[string]float32))"
 	},
 	func(u string) string {
+		// values derived from a literal are the run's own: writing into them must not reach the literal
+		return "bs" + u + " = toByteSlice(\"qdraft\")\nbs" + u + "[0] = toByteSlice(\"X\")[0]\nrec(toString(bs" + u + "))\nrec(\"qdraft\")\nrs" + u + " = toRuneSlice(\"rdraft\")\nrs" + u + "[0] = toRuneSlice(\"Y\")[0]\nrec(toString(rs" + u + "))\nrec(\"rdraft\")\n" +
+			"rn" + u + " = import(\"math/rand\")\nfunc() {\nx = rn" + u + ".Intn(10)\nrec(x >= 0 && x < 10)\ny = rn" + u + ".Float64()\nrec(y < 1)\n}()"
+	},
+	func(u string) string {
+		// a variable the host bound to nil is a variable like any other: writing through its address changes it and nothing else
+		return "rec(hnil)\nhp" + u + " = &hnil\n*hp" + u + " = base\nrec(hnil)\nhq" + u + " = nil\nrec(hq" + u + ")\nrec(nil)"
+	},
+	func(u string) string {
 		// how often the body of a for-in over a map runs does not depend on what the body adds to or removes from
 		// the map (order aside): once per entry present when the loop started
 		return "m" + u + " = {\"a\": 1, \"b\": 2, \"c\": 3}\nn" + u + " = 0\nfor k" + u + ", v" + u + " in m" + u + " {\nn" + u + "++\nm" + u + "[k" + u + " + \"x\"] = base\nm" + u + "[k" + u + " + \"y\"] = base\n}\nrec(n" + u + ")\nrec(len(m" + u + "))\n" +
@@ -461,6 +470,8 @@ func mkEnv(i int, out *runOut, mu *sync.Mutex) *env.Env {
 	case 2:
 		e.DefineType("float32", "")
 	}
+	// a name the host binds to nil: one more per-environment binding
+	e.Define("hnil", nil)
 	if i%2 == 0 {
 		e.Define("w0", float64(1.5))
 	} else {
@@ -687,6 +698,16 @@ func typeBindings() string {
 	}
 	if t := run(env.NewEnv(), "make([]float32, 1)"); t != plain1 || t == reflect.TypeOf([]int64{}) {
 		return fmt.Sprintf("a fresh environment got %v from make([]float32, 1), %v before another environment bound that name", t, plain1)
+	}
+	// a nil bound by the host of one environment is not the nil of any other
+	hn := env.NewEnv()
+	hn.Define("x", nil)
+	hn.Define("five", int64(5))
+	vm.Execute(hn, &vm.Options{}, "p = &x\n*p = five")
+	fresh := env.NewEnv()
+	fresh.Define("y", nil)
+	if v, err := vm.Execute(fresh, &vm.Options{}, "y"); err != nil || v != nil {
+		return fmt.Sprintf("a fresh environment whose host bound y to nil reads y as %#v (error %v) after a script of another environment wrote through the address of its own host-bound nil", v, err)
 	}
 	own := env.NewEnv()
 	own.Define("w0", float64(1.5))
